@@ -811,6 +811,8 @@ fn check_zone_tree() {
     let mut tree = ZoneTree::new();
     let mut present: BTreeSet<(String, bool)> = BTreeSet::new(); // (apex, is CH)
     let n = 1 + sim::draw("tree.n_zones", 6);
+    let mut zone_no = 0u32;
+    let mut tags: BTreeMap<(String, bool), u32> = BTreeMap::new();
     // Insertions and, now and then, removals (of zones that are there and of
     // zones that are not) in a drawn order.
     for _ in 0..n {
@@ -836,9 +838,21 @@ fn check_zone_tree() {
             }
             continue;
         }
-        let zone = ZoneBuilder::new(stored_name(apex), class).build();
+        // Every zone object carries its own tag: a refused insertion must
+        // leave the zone that was there, not just a zone of that name.
+        zone_no += 1;
+        let mut zb = ZoneBuilder::new(stored_name(apex), class);
+        let tag: BTreeSet<String> = [format!("\"zone-{}\"", zone_no)].into_iter().collect();
+        if zb.insert_rrset(&stored_name(apex), rrset_of(Rtype::TXT, 60, &tag, apex)).is_err() {
+            sim::harness_error("tagging a zone failed".to_string());
+            return;
+        }
+        let zone = zb.build();
         let res = tree.insert_zone(zone);
-        ev!("tree insert {} {:?} -> {:?}", apex, class, res.is_ok());
+        ev!("tree insert {} {:?} (zone-{}) -> {:?}", apex, class, zone_no, res.is_ok());
+        if res.is_ok() {
+            tags.insert((apex.to_string(), ch), zone_no);
+        }
         let fresh = present.insert((apex.to_string(), ch));
         if res.is_ok() != fresh {
             sim::violation(P8, "zone-tree", "insert-zone-result".to_string(), format!("insert_zone({} {:?}) returned {:?}, zone was {} present", apex, class, res.is_ok(), if fresh { "not" } else { "already" }));
@@ -855,7 +869,21 @@ fn check_zone_tree() {
     }
     for apex in APEXES {
         for ch in [false, true] {
-            let got = tree.get_zone(&stored_name(apex), if ch { Class::CH } else { Class::IN }).map(|z| owner_str(z.apex_name()));
+            let found = tree.get_zone(&stored_name(apex), if ch { Class::CH } else { Class::IN });
+            if let (Some(z), Some(no)) = (found, tags.get(&(apex.to_string(), ch))) {
+                let text = match z.read().query(stored_name(apex), Rtype::TXT) {
+                    Ok(a) => match a.content() {
+                        domain::zonetree::AnswerContent::Data(rrset) => rrset.data().iter().map(|d| format!("{}", d)).collect::<Vec<_>>().join(" "),
+                        _ => "no data".to_string(),
+                    },
+                    Err(_) => "query failed".to_string(),
+                };
+                if !text.contains(&format!("zone-{}", no)) || text.contains(&format!("zone-{}0", no)) {
+                    sim::violation(P8, "zone-tree", "wrong-zone-object-in-the-tree".to_string(), format!("{} {}: the tree should hold the zone tagged zone-{} (the one whose insertion succeeded), it answers {}", apex, if ch { "CH" } else { "IN" }, no, text));
+                    return;
+                }
+            }
+            let got = found.map(|z| owner_str(z.apex_name()));
             let want = present.contains(&(apex.to_string(), ch)).then(|| apex.to_string());
             if got != want {
                 sim::violation(P8, "zone-tree", "get-zone-wrong".to_string(), format!("zones {:?}: get_zone({} {}) gave {:?}, expected {:?}", present, apex, if ch { "CH" } else { "IN" }, got, want));
@@ -977,7 +1005,19 @@ async fn run(_tier: Tier) {
         sim::stat("probe.clean_history_run");
     }
     let n_batches = sim::draw("n_batches", 7);
+    // A reader taken at some point of the history and kept: its negative
+    // answers carry the SOA of *its* version, whatever is committed later.
+    let hold_before = if n_batches > 0 && sim::chance("held_reader", 1, 2) { Some(sim::draw("held_reader.before_batch", n_batches)) } else { None };
+    let mut held: Option<(Box<dyn domain::zonetree::ReadableZone>, String)> = None;
     for b in 0..n_batches {
+        if hold_before == Some(b) {
+            if let Some((_, rds)) = c.get(&(APEX.to_string(), Rtype::SOA)) {
+                if let Some(soa) = rds.iter().next() {
+                    held = Some((zone.read(), soa.clone()));
+                    sim::stat("probe.reader_held_across_later_commits");
+                }
+            }
+        }
         batch(&zone, &mut c, &mut h, &names, specials_via_write, clean, b as usize).await;
         sim::stat("counter.batches");
         if sim::stopped() {
@@ -986,6 +1026,17 @@ async fn run(_tier: Tier) {
     }
     QUEUED_WRITER.with(|q| q.borrow_mut().take());
     // ---- checks
+    if let Some((reader, soa_then)) = &held {
+        // (A name one label outside the universe: no node of any version.)
+        if let Ok(a) = query_zone(reader.as_ref(), &format!("held-reader-probe.{}", APEX), Rtype::A) {
+            for (o, t, _, rd) in &a.authority {
+                if *t == Rtype::SOA && canon_rdata(APEX, Rtype::SOA, rd) != canon_rdata(APEX, Rtype::SOA, soa_then) {
+                    sim::violation(P8, "query", "negative-answer-with-another-versions-soa".to_string(), format!("a reader taken when the SOA was [{}] and kept across later commits answers NXDOMAIN with the SOA [{}] of {} in the authority section", soa_then, rd, o));
+                    return;
+                }
+            }
+        }
+    }
     let hist_reader = zone.read();
     // The walk must list exactly the content (also guards the model).
     let w = walk_zone(hist_reader.as_ref());
